@@ -338,8 +338,9 @@ package websocket
 //@   at return assert b1: result == nil ==> (*pbuf)[1] == ite(c.isClient, 128, 0) + ite(len(data) < 126, len(data), ite(len(data) <= 65535, 126, 127))   // prop C12
 //@   at return assert l16: result == nil && len(data) >= 126 && len(data) <= 65535 ==> (*pbuf)[2]*256 + (*pbuf)[3] == len(data)   // prop C12
 //@   at return assert l64: result == nil && len(data) > 65535 ==> ((((((((*pbuf)[2]*256 + (*pbuf)[3])*256 + (*pbuf)[4])*256 + (*pbuf)[5])*256 + (*pbuf)[6])*256 + (*pbuf)[7])*256 + (*pbuf)[8])*256 + (*pbuf)[9]) == len(data)   // prop C12
-//@   at return assert payload: result == nil && !c.isClient ==> (forall p int {mem(*pbuf, p)} :: off(*pbuf) + hdrLen(len(data), false) <= p && p < off(*pbuf) + len(*pbuf) ==> mem(*pbuf, p) == memold(data, p - off(*pbuf) - hdrLen(len(data), false) + old(off(data))))   // prop C12
-//@   at return assert maskedpayload: result == nil && c.isClient ==> (forall p int {mem(*pbuf, p)} :: off(*pbuf) + hdrLen(len(data), true) <= p && p < off(*pbuf) + len(*pbuf) ==> mem(*pbuf, p) == xor8(memold(data, p - off(*pbuf) - hdrLen(len(data), true) + old(off(data))), mem(*pbuf, off(*pbuf) + hdrLen(len(data), true) - 4 + m4(p - off(*pbuf) - hdrLen(len(data), true)))))   // prop C12
+//@   persite payload maskedpayload
+//@   ensures payload: result == nil && !c.isClient ==> headLen == hdrLen(len(data), false) && (forall p int {mem(*pbuf, p)} :: off(*pbuf) + headLen <= p && p < off(*pbuf) + len(*pbuf) ==> mem(*pbuf, p) == memold(data, p - off(*pbuf) - headLen + old(off(data))))   // prop C12
+//@   ensures maskedpayload: result == nil && c.isClient ==> headLen == hdrLen(len(data), true) && (forall p int {mem(*pbuf, p)} :: off(*pbuf) + headLen <= p && p < off(*pbuf) + len(*pbuf) ==> mem(*pbuf, p) == xor8(memold(data, p - off(*pbuf) - headLen + old(off(data))), mem(*pbuf, off(*pbuf) + headLen - 4 + m4(p - off(*pbuf) - headLen))))   // prop C12
 //@   at before:Write#1 assert handed: arg_b == *pbuf   // prop C12
 //@   note round trip of the header, as a lemma over the two contracts' own predicates (a closed formula, checked here once): what writeFrame/hlen,b0,b1 put into the first two bytes is what nextFrame/fields,rsv1,bodyat,bodylen read out of them
 //@   at entry assert roundtrip: forall fi bool, r1 bool, cl bool, op int, n int, b0 int, b1 int :: 0 <= op && op <= 15 && 0 <= n && b0 == ite(fi, 128, 0) + ite(r1, 64, 0) + op && b1 == ite(cl, 128, 0) + ite(n < 126, n, ite(n <= 65535, 126, 127)) ==> b0 % 16 == op && (b0 >= 128) == fi && (b0 % 128 >= 64) == r1 && (b1 >= 128) == cl && b1 % 128 == ite(n < 126, n, ite(n <= 65535, 126, 127)) && hdrLenR(b1 % 128, b1 >= 128) == hdrLen(n, cl) && (b1 % 128 < 126 ==> b1 % 128 == n)   // prop C12
